@@ -2,6 +2,8 @@
 C13 — Backend configuration after any reload equals a fresh start, and never blocks.
 -/
 import SigModel.Lemmas.Backends
+import SigModel.Lemmas.BackendsEtcd
+import SigModel.Lemmas.RWLock
 import SigModel.Spec.Backends
 import SigModel.Model.RWLock
 
@@ -28,4 +30,424 @@ theorem C13_reload_eq_fresh (c₀ : List Backend) (cs : List (List Backend)) (sc
     getBackend (runReloads c₀ cs) scheme host url = getBackend (fresh (finalCfg c₀ cs)) scheme host url :=
   getBackend_congr _ _ (fun h => tget_foldl_reload cs c₀ (fresh c₀) (fun _ => rfl) h) scheme host url
 
+/-- Reloading cannot fail: `reload?` models `Reload` with an `UpsertHost` that may panic (`none`);
+with the code's current `UpsertHost` it always returns, for every table and configuration. -/
+theorem C13_reload_total (t : Table) (bs : List Backend) : (reload? t bs).isSome = true := by
+  rw [reload?_eq]; rfl
+
+/-- …and along every chain. -/
+def runReloads? (c₀ : List Backend) (cs : List (List Backend)) : Option Table :=
+  cs.foldl (fun acc c => acc.bind (fun t => reload? t c)) (some (fresh c₀))
+
+theorem C13_reload_chain_total (c₀ : List Backend) (cs : List (List Backend)) :
+    runReloads? c₀ cs = some (runReloads c₀ cs) := by
+  unfold runReloads? runReloads
+  generalize fresh c₀ = t
+  induction cs generalizing t with
+  | nil => rfl
+  | cons c cs ih =>
+    rw [List.foldl_cons, List.foldl_cons, Option.bind_some, reload?_eq]
+    exact ih _
+
+/-- What is accepted comes from the final configuration, with its attributes: a lookup answered
+with `b` means `b` is a backend of the final configuration filed under the looked-up host whose
+url/scheme match — so a backend that was removed, or moved to another host or url, no longer answers. -/
+theorem C13_static_answers_from_final (c₀ : List Backend) (cs : List (List Backend))
+    (scheme host url : String) (b : Backend)
+    (h : getBackend (runReloads c₀ cs) scheme host url = some b) :
+    b ∈ finalCfg c₀ cs ∧ b.host = host ∧ entryMatches scheme url b = true := by
+  rw [C13_reload_eq_fresh] at h
+  unfold getBackend at h
+  rw [tget_fresh] at h
+  by_cases hh : host ∈ hostsOf (finalCfg c₀ cs)
+  · simp only [hh, if_true] at h
+    have hm := List.mem_of_find?_eq_some h
+    have hp := List.find?_some h
+    simp only [forHost, List.mem_filter, decide_eq_true_eq] at hm
+    exact ⟨hm.1, hm.2, hp⟩
+  · simp [hh] at h
+
+/-- Conversely nothing configured is lost: if the final configuration has a matching backend under
+that host, the lookup is answered (by the first such backend in configuration order). -/
+theorem C13_static_configured_accepted (c₀ : List Backend) (cs : List (List Backend))
+    (scheme host url : String) (b : Backend) (hb : b ∈ finalCfg c₀ cs) (hhost : b.host = host)
+    (hm : entryMatches scheme url b = true) :
+    getBackend (runReloads c₀ cs) scheme host url
+      = ((finalCfg c₀ cs).filter (·.host = host)).find? (entryMatches scheme url)
+    ∧ (getBackend (runReloads c₀ cs) scheme host url).isSome = true := by
+  rw [C13_reload_eq_fresh]
+  unfold getBackend
+  rw [tget_fresh]
+  have hh : host ∈ hostsOf (finalCfg c₀ cs) := by
+    unfold hostsOf; rw [mem_dedupe]; exact List.mem_map.mpr ⟨b, hb, hhost⟩
+  simp only [hh, if_true, forHost, true_and]
+  rw [List.find?_isSome]
+  exact ⟨b, List.mem_filter.mpr ⟨hb, by simp [hhost]⟩, hm⟩
+
+/-! ### why `UpsertHost` was replaced: the pinned tree's in-place version (`Legacy`) -/
+
+namespace Witness
+
+def bk (id url secret : String) : Backend :=
+  { id := id, url := url, host := "h1.invalid", allowHttp := false, secret := secret, limit := 0, stream := 0, screen := 0 }
+
+def a : Backend := bk "a" "https://h1.invalid/a/" "sa"
+def b : Backend := bk "b" "https://h1.invalid/b/" "sb"
+def c : Backend := bk "c" "https://h1.invalid/c/" "sc"
+def outer : Backend := bk "b1" "https://h1.invalid/a/" "s1"
+def inner : Backend := bk "b2" "https://h1.invalid/a/b/" "s2"
+
+end Witness
+
+open Witness in
+/-- Reload of `a, b, c` → `b, c` on one host: the in-place `UpsertHost` runs off the end of the
+slice it shortened (replayed on the pinned tree: corpus/C13/01…). -/
+theorem C13_legacy_upsert_panics : reloadWith Legacy.upsertHost (fresh [a, b, c]) [b, c] = none := by
+  decide +kernel
+
+open Witness in
+/-- …as does a host losing two backends at once (corpus/C13/02…). -/
+example : reloadWith Legacy.upsertHost (fresh [a, b]) [c] = none := by decide +kernel
+
+open Witness in
+/-- Nested prefixes: configuration `b2, b1` (inner url first).  The in-place version kept "existing
+first, new appended", so after `[b1] → [b2, b1]` a url under the inner prefix was answered by the
+outer backend, while a fresh start answers with the inner one (corpus/C13/03…, 04…). -/
+theorem C13_legacy_order_differs :
+    ∃ t, reloadWith Legacy.upsertHost (fresh [outer]) [inner, outer] = some t ∧
+      getBackend t "https" "h1.invalid" "https://h1.invalid/a/b/x/" = some outer ∧
+      getBackend (fresh [inner, outer]) "https" "h1.invalid" "https://h1.invalid/a/b/x/" = some inner := by
+  refine ⟨[("h1.invalid", [outer, inner])], by decide +kernel, by decide +kernel, by decide +kernel⟩
+
+open Witness in
+/-- The code as it is now on the same inputs. -/
+example : reload? (fresh [a, b, c]) [b, c] = some (fresh [b, c]) := by decide +kernel
+open Witness in
+example : (reload? (fresh [outer]) [inner, outer]).map
+    (fun t => getBackend t "https" "h1.invalid" "https://h1.invalid/a/b/x/") = some (some inner) := by decide +kernel
+
+/-! ## 2. etcd storage: after any history of events, lookups answer as after a fresh start -/
+
+def runEtcd (ops : List EtcdOp) : EtcdSt := ops.foldl etcdStep {}
+
+theorem runEtcd_inv (ops : List EtcdOp) : TInv (runEtcd ops).table (iget (kvAfter ops)) := by
+  have h : EInv (runEtcd ops) := einv_run ops einv_empty
+  exact tinv_congr h (fun k => infos_run ops {} [] (fun _ => rfl) k)
+
+/-- For every history of put/delete events (valid and invalid values, keys changing host) and every
+list `kvs` of key/value pairs with distinct keys that represents the final key/value map — in
+whatever order a starting server is handed them — lookups on the long-lived storage and on a
+storage started from `kvs` agree. -/
+theorem C13_etcd_eq_fresh (ops : List EtcdOp) (kvs : Infos) (hn : KeysNodup kvs)
+    (hkv : ∀ k, iget kvs k = iget (kvAfter ops) k) (scheme host url : String) :
+    getBackend (runEtcd ops).table scheme host url = getBackend (etcdFresh kvs).table scheme host url := by
+  apply getBackend_congr
+  intro h
+  have h₂ : TInv (etcdFresh kvs).table (iget (kvAfter ops)) :=
+    tinv_congr (einv_fresh kvs) (fun k => by rw [infos_fresh kvs hn k, hkv k])
+  exact tinv_unique (runEtcd_inv ops) h₂ h
+
+/-- In particular for the key-ordered list an etcd range query returns (what the harness feeds its
+fresh instance, and what the driver's `fresh=` column computes). -/
+theorem C13_etcd_eq_fresh_sorted (ops : List EtcdOp) (scheme host url : String) :
+    getBackend (runEtcd ops).table scheme host url
+      = getBackend (etcdFresh (sortKV (kvAfter ops))).table scheme host url :=
+  C13_etcd_eq_fresh ops _ (keysNodup_sortKV _ (keysNodup_kvAfter ops))
+    (fun k => iget_sortKV _ (keysNodup_kvAfter ops) k) scheme host url
+
+/-- What is accepted comes from the final key/value map: an answer `b` means the key `b.id`
+currently holds a valid value whose host is the looked-up host and whose attributes are `b`'s.
+Hence a deleted key, a key overwritten with an invalid value, or the previous host/url of a key that
+moved, is no longer accepted. -/
+theorem C13_etcd_answers_from_final (ops : List EtcdOp) (scheme host url : String) (b : Backend)
+    (h : getBackend (runEtcd ops).table scheme host url = some b) :
+    ∃ i, iget (kvAfter ops) b.id = some i ∧ i.host = host ∧ b = backendOf b.id i ∧
+      entryMatches scheme url b = true := by
+  unfold getBackend at h
+  cases e : tget (runEtcd ops).table host with
+  | none => simp [e] at h
+  | some es =>
+    simp only [e] at h
+    obtain ⟨i, hi, hh, hb⟩ := ((runEtcd_inv ops).mem host b).mp ⟨es, e, List.mem_of_find?_eq_some h⟩
+    exact ⟨i, hi, hh, hb, List.find?_some h⟩
+
+theorem C13_etcd_deleted_not_accepted (ops : List EtcdOp) (key : String) (scheme host url : String) (b : Backend)
+    (h : getBackend (runEtcd (ops ++ [.del key])).table scheme host url = some b) : b.id ≠ key := by
+  obtain ⟨i, hi, _⟩ := C13_etcd_answers_from_final _ _ _ _ _ h
+  intro hk
+  simp [kvAfter, List.foldl_append, kvStep, iget_idel, hk] at hi
+
+theorem C13_etcd_moved_not_accepted (ops : List EtcdOp) (key : String) (i : Info) (scheme host url : String)
+    (b : Backend) (hmoved : i.host ≠ host)
+    (h : getBackend (runEtcd (ops ++ [.put key (some i)])).table scheme host url = some b) : b.id ≠ key := by
+  obtain ⟨j, hj, hh, _⟩ := C13_etcd_answers_from_final _ _ _ _ _ h
+  intro hk
+  simp [kvAfter, List.foldl_append, kvStep, iget_iset, hk] at hj
+  subst hj
+  exact hmoved hh
+
+/-! ## 2b. The model meets the statement's own reading (the judge of `Spec/Backends.lean`) -/
+
+open SigModel.Generated.Backends in
+/-- The facts read from the source that the lookup model is defined over: `https` always, `http`
+only for backends configured with an http url, nothing else; first matching entry wins; prefix
+test on the url with a trailing slash; `Reload` acts in "backends" mode only; and no lock user
+outside the modelled entry points. -/
+theorem C13_facts :
+    schemeHttps = "true" ∧ schemeHttp = "allowHttp" ∧ schemeOther = "false" ∧
+    lookupFirstMatchWins = true ∧ lookupUsesHasPrefix = true ∧ lookupAppendsSlash = true ∧
+    reloadOnlyInBackendsMode = true ∧ unreachedLockUsers = [] := by decide
+
+/-- The extracted scheme rule is the statement's: https always, http only where configured. -/
+theorem C13_scheme_rule (b : Backend) (scheme : String) :
+    urlAllowed b scheme = (scheme == "https" || (scheme == "http" && b.allowHttp)) := by
+  unfold urlAllowed ruleVal
+  by_cases h1 : scheme = "https"
+  · subst h1; simp [Generated.Backends.schemeHttps]
+  · by_cases h2 : scheme = "http"
+    · subst h2; simp [Generated.Backends.schemeHttp]
+    · simp [h1, h2, Generated.Backends.schemeOther]
+
+theorem specMatches_iff (p : Probe) (b : Backend) :
+    specMatches p b = (decide (b.host = p.host) && entryMatches p.scheme p.url b) := by
+  unfold specMatches entryMatches
+  rw [C13_scheme_rule]
+  by_cases h : b.host = p.host <;> simp [h]
+
+theorem getBackend_fresh_some {bs : List Backend} {scheme host url : String} {b : Backend}
+    (h : getBackend (fresh bs) scheme host url = some b) :
+    b ∈ bs ∧ b.host = host ∧ entryMatches scheme url b = true := by
+  unfold getBackend at h
+  rw [tget_fresh] at h
+  by_cases hh : host ∈ hostsOf bs
+  · simp only [hh, if_true] at h
+    have hm := List.mem_of_find?_eq_some h
+    simp only [forHost, List.mem_filter, decide_eq_true_eq] at hm
+    exact ⟨hm.1, hm.2, List.find?_some h⟩
+  · simp [hh] at h
+
+theorem getBackend_fresh_none {bs : List Backend} {scheme host url : String}
+    (h : getBackend (fresh bs) scheme host url = none) :
+    ∀ b ∈ bs, b.host = host → entryMatches scheme url b = false := by
+  intro b hb hhost
+  unfold getBackend at h
+  rw [tget_fresh] at h
+  have hh : host ∈ hostsOf bs := by
+    unfold hostsOf; rw [mem_dedupe]; exact List.mem_map.mpr ⟨b, hb, hhost⟩
+  simp only [hh, if_true] at h
+  have := List.find?_eq_none.mp h b (by simp [forHost, hb, hhost])
+  simpa using this
+
+/-- For every chain of configurations and every lookup the judge's verdict on the model's answers is
+`ok`: the model of the code refines the statement as the judge reads it. -/
+theorem C13_static_meets_spec (c₀ : List Backend) (cs : List (List Backend)) (p : Probe) :
+    judgeProbe (finalCfg c₀ cs) p
+      ((getBackend (runReloads c₀ cs) p.scheme p.host p.url).map ansOf)
+      ((getBackend (fresh (finalCfg c₀ cs)) p.scheme p.host p.url).map ansOf) = "ok" := by
+  rw [C13_reload_eq_fresh]
+  cases h : getBackend (fresh (finalCfg c₀ cs)) p.scheme p.host p.url with
+  | some b =>
+    obtain ⟨hb, hhost, hm⟩ := getBackend_fresh_some h
+    have hany : (finalCfg c₀ cs).any (fun b' => ansOf b' == ansOf b && specMatches p b') = true := by
+      rw [List.any_eq_true]
+      exact ⟨b, hb, by rw [specMatches_iff]; simp [hhost, hm]⟩
+    simp [judgeProbe, hany]
+  | none =>
+    have hnone := getBackend_fresh_none h
+    have hacc : specAccepts (finalCfg c₀ cs) p = false := by
+      unfold specAccepts
+      rw [List.any_eq_false]
+      intro b hb
+      rw [specMatches_iff]
+      by_cases hh : b.host = p.host
+      · simp [hh, hnone b hb hh]
+      · simp [hh]
+    simp [judgeProbe, hacc]
+
+/-- The same for etcd histories; `final` is the list of the backends of the final key/value map. -/
+theorem C13_etcd_meets_spec (ops : List EtcdOp) (kvs : Infos) (hn : KeysNodup kvs)
+    (hkv : ∀ k, iget kvs k = iget (kvAfter ops) k) (p : Probe) :
+    judgeProbe ((kvAfter ops).map (fun e => backendOf e.1 e.2)) p
+      ((getBackend (runEtcd ops).table p.scheme p.host p.url).map ansOf)
+      ((getBackend (etcdFresh kvs).table p.scheme p.host p.url).map ansOf) = "ok" := by
+  rw [← C13_etcd_eq_fresh ops kvs hn hkv]
+  cases h : getBackend (runEtcd ops).table p.scheme p.host p.url with
+  | some b =>
+    obtain ⟨i, hi, hhost, hb, hm⟩ := C13_etcd_answers_from_final ops _ _ _ _ h
+    have hany : ((kvAfter ops).map (fun e => backendOf e.1 e.2)).any
+        (fun b' => ansOf b' == ansOf b && specMatches p b') = true := by
+      rw [List.any_eq_true]
+      refine ⟨b, List.mem_map.mpr ⟨(b.id, i), mem_of_iget hi, hb.symm⟩, ?_⟩
+      rw [specMatches_iff]
+      have : b.host = p.host := by rw [hb]; exact hhost
+      simp [this, hm]
+    simp [judgeProbe, hany]
+  | none =>
+    have hacc : specAccepts ((kvAfter ops).map (fun e => backendOf e.1 e.2)) p = false := by
+      unfold specAccepts
+      rw [List.any_eq_false]
+      intro b hb
+      obtain ⟨⟨k, i⟩, hmem, rfl⟩ := List.mem_map.mp hb
+      rw [specMatches_iff]
+      by_cases hh : (backendOf k i).host = p.host
+      · have hig := iget_of_mem (keysNodup_kvAfter ops) hmem
+        obtain ⟨es, he, hbes⟩ := ((runEtcd_inv ops).mem p.host (backendOf k i)).mpr ⟨i, hig, hh, rfl⟩
+        unfold getBackend at h
+        simp only [he] at h
+        have := List.find?_eq_none.mp h _ hbes
+        simp only [Bool.not_eq_true] at this
+        simp [hh, this]
+      · simp [hh]
+    simp [judgeProbe, hacc]
+
+/-! ### non-vacuity -/
+
+open Witness in
+/-- `C13_reload_eq_fresh` / `C13_static_answers_from_final` on a chain that exercises them: three
+configurations on a shared host with nested prefixes, a removal and a re-ordering; the lookup is
+accepted, by the inner backend, and the removed url is rejected. -/
+example :
+    getBackend (runReloads [a, outer] [[outer, inner, b], [inner, outer]]) "https" "h1.invalid" "https://h1.invalid/a/b/x/"
+      = some inner ∧
+    getBackend (runReloads [a, outer] [[outer, inner, b], [inner, outer]]) "https" "h1.invalid" "https://h1.invalid/b/x/"
+      = none ∧
+    finalCfg [a, outer] [[outer, inner, b], [inner, outer]] = [inner, outer] := by
+  refine ⟨by decide +kernel, by decide +kernel, rfl⟩
+
+/-- `C13_etcd_eq_fresh` on a history with a host move, an invalid value, a delete and nested
+prefixes written in reverse key order: the hypotheses hold for the sorted final map, and the lookups
+are non-trivial (one accepted by the inner backend, the moved key's old host rejected). -/
+example :
+    let i (url host secret : String) : Info := { url := url, host := host, scheme := "https", secret := secret, limit := 0, stream := 0, screen := 0 }
+    let ops : List EtcdOp :=
+      [.put "k2" (some (i "https://h1.invalid/a" "h1.invalid" "s2")), .put "k1" (some (i "https://h1.invalid/a/b" "h1.invalid" "s1")),
+       .put "k3" (some (i "https://h1.invalid/c" "h1.invalid" "s3")), .put "k3" (some (i "https://h2.invalid/c" "h2.invalid" "s3")),
+       .put "k4" (some (i "https://h1.invalid/d" "h1.invalid" "s4")), .put "k4" none, .put "k5" (some (i "https://h2.invalid/e" "h2.invalid" "s5")),
+       .del "k5"]
+    KeysNodup (sortKV (kvAfter ops)) ∧ (∀ k ∈ ["k1", "k2", "k3", "k4", "k5", "zz"], iget (sortKV (kvAfter ops)) k = iget (kvAfter ops) k) ∧
+    (getBackend (runEtcd ops).table "https" "h1.invalid" "https://h1.invalid/a/b/x/").map (·.id) = some "k1" ∧
+    getBackend (runEtcd ops).table "https" "h1.invalid" "https://h1.invalid/c/x/" = none ∧
+    (getBackend (runEtcd ops).table "https" "h2.invalid" "https://h2.invalid/c/x/").map (·.id) = some "k3" ∧
+    getBackend (runEtcd ops).table "https" "h1.invalid" "https://h1.invalid/d/" = none := by
+  refine ⟨by decide +kernel, by decide +kernel, by decide +kernel, by decide +kernel, by decide +kernel, by decide +kernel⟩
+
 end SigModel.Backends
+
+/-! ## 3. Lookups and reloads running concurrently always complete
+
+`Model/RWLock.lean` is Go's writer-preferring `sync.RWMutex`; a goroutine is a thread running the
+sequence of lock calls of the storage functions it executes.  Those sequences are *extracted from
+the source* on every run (`Generated/Backends.lean`: every syntactic path through `GetBackend`,
+`GetBackends`, `GetCompatBackend`, `Reload`, `EtcdKeyUpdated`, `EtcdKeyDeleted` of both storages,
+following calls such as `GetBackend → getBackendLocked`). -/
+
+namespace SigModel.RWLock
+open SigModel.Generated.Backends
+
+/-- Every extracted lock program is well-bracketed and non-nested.  Re-introducing a second
+`RLock` on the lookup path (or forgetting an unlock on some path) makes this `decide` fail. -/
+theorem C13_lock_programs_flat : allFlat lockPrograms = true := by decide
+
+/-- The lock programs of all API entry points, parsed. -/
+def apiPaths : List (List LockOp) := (lockPrograms.flatMap (·.2)).filterMap parseProg
+
+theorem apiPaths_flat : ∀ p ∈ apiPaths, Flat p = true := by decide
+
+/-- the extraction found the lookups, the reload and the etcd handlers (not an empty table) -/
+example : [.rlock, .runlock] ∈ apiPaths ∧ [.lock, .unlock] ∈ apiPaths ∧ apiPaths.length ≥ 10 := by decide
+
+/-- **No deadlock.**  For any number of threads running flat lock programs, every reachable
+configuration in which some thread has not finished has an enabled step. -/
+theorem C13_no_deadlock (progs : List (List LockOp)) (hflat : ∀ p ∈ progs, Flat p = true)
+    (c : Cfg) (hr : Reach (Cfg.init progs) c) (hnf : c.final = false) : ∃ c', Step c c' :=
+  step_of_enabled (progress (inv_reach hflat hr) hnf)
+
+/-- The same for the code: any number of goroutines, each performing any sequence of calls of the
+storage API (lookups, listings, reloads, etcd events). -/
+theorem C13_api_no_deadlock (calls : List (List (List LockOp)))
+    (hcalls : ∀ th ∈ calls, ∀ p ∈ th, p ∈ apiPaths)
+    (c : Cfg) (hr : Reach (Cfg.init (calls.map List.flatten)) c) (hnf : c.final = false) :
+    ∃ c', Step c c' := by
+  apply C13_no_deadlock _ _ c hr hnf
+  intro p hp
+  simp only [List.mem_map] at hp
+  obtain ⟨th, hth, rfl⟩ := hp
+  exact flat_flatten th (fun q hq => apiPaths_flat q (hcalls th hth q hq))
+
+/-- Every step consumes: an execution has at most `measure` steps. -/
+theorem C13_steps_bounded {c c' : Cfg} (h : Step c c') : measure c' < measure c := measure_step h
+
+/-- **Always completes.**  From every reachable configuration the run can be continued to the
+configuration in which every thread has finished — and by `C13_steps_bounded` every maximal run is
+such a continuation. -/
+theorem C13_always_completes (progs : List (List LockOp)) (hflat : ∀ p ∈ progs, Flat p = true)
+    (c : Cfg) (hr : Reach (Cfg.init progs) c) : ∃ c', Reach c c' ∧ c'.final = true := by
+  generalize hn : measure c = n
+  induction n using Nat.strongRecOn generalizing c with
+  | _ n ih =>
+    cases hfin : c.final with
+    | true => exact ⟨c, Reach.refl, hfin⟩
+    | false =>
+      obtain ⟨c₁, hs⟩ := C13_no_deadlock progs hflat c hr hfin
+      have hlt := measure_step hs
+      obtain ⟨c₂, hr₂, hf₂⟩ := ih (measure c₁) (by omega) c₁ (Reach.step hr hs) rfl
+      exact ⟨c₂, reach_trans (Reach.step Reach.refl hs) hr₂, hf₂⟩
+
+/-- **Mutual exclusion** (what makes a whole `Reload` atomic for lookups): while a thread holds
+the write lock no other thread holds the lock in any mode. -/
+theorem C13_mutual_exclusion (progs : List (List LockOp)) (hflat : ∀ p ∈ progs, Flat p = true)
+    (c : Cfg) (hr : Reach (Cfg.init progs) c) (pre post : List Thread) (t : Thread)
+    (hc : c.threads = pre ++ t :: post) (hw : t.w = true) :
+    t.r = 0 ∧ ∀ x ∈ pre ++ post, x.r = 0 ∧ x.w = false :=
+  exclusive_of_inv (inv_reach hflat hr) pre post t hc hw
+
+/-! ### the negative witness: the lookup path of the pinned tree -/
+
+/-- `GetBackend` took the read lock and called `getBackendLocked`, which took it again. -/
+def nestedLookup : List LockOp := [.rlock, .rlock, .runlock, .runlock]
+def reloadProg : List LockOp := [.lock, .unlock]
+
+example : Flat nestedLookup = false := by decide
+example : allFlat [("staticGetBackend", [["RLock", "RLock", "RUnlock", "RUnlock"], ["RLock", "RUnlock"]])] = false := by decide
+
+/-- Lookup holds the read lock once, the reload has announced itself. -/
+def stuckCfg : Cfg :=
+  { mu := { readers := 1, wlocked := true },
+    threads := [{ todo := [.rlock, .runlock, .runlock], r := 1 }, { todo := [.lock, .unlock], ann := true }] }
+
+/-- One lookup and one reload suffice: the state is reachable, nobody has finished, nobody can move. -/
+theorem C13_nested_rlock_deadlocks :
+    Reach (Cfg.init [nestedLookup, reloadProg]) stuckCfg ∧ stuckCfg.final = false ∧ ¬ ∃ c', Step stuckCfg c' := by
+  refine ⟨?_, by decide, ?_⟩
+  · have s1 : Step (Cfg.init [nestedLookup, reloadProg])
+        ⟨{ readers := 1 }, [{ todo := [.rlock, .runlock, .runlock], r := 1 }, { todo := reloadProg }]⟩ :=
+      Step.mk {} { readers := 1 } [] [{ todo := reloadProg }] { todo := nestedLookup }
+        { todo := [.rlock, .runlock, .runlock], r := 1 } rfl
+    have s2 : Step ⟨{ readers := 1 }, [{ todo := [.rlock, .runlock, .runlock], r := 1 }, { todo := reloadProg }]⟩ stuckCfg :=
+      Step.mk { readers := 1 } { readers := 1, wlocked := true } [{ todo := [.rlock, .runlock, .runlock], r := 1 }] []
+        { todo := reloadProg } { todo := [.lock, .unlock], ann := true } rfl
+    exact Reach.step (Reach.step Reach.refl s1) s2
+  · rintro ⟨c', hs⟩
+    have := enabled_of_step hs
+    revert this
+    decide
+
+/-- non-vacuity of `C13_no_deadlock`: two lookups and a reload, mid-way (one reader inside, the
+writer announced): reachable, not final — and the theorem's step exists (the reader leaves). -/
+example : ∃ c, Reach (Cfg.init [[.rlock, .runlock], [.rlock, .runlock], [.lock, .unlock]]) c ∧ c.final = false ∧
+    c.mu.readers = 1 ∧ c.mu.wlocked = true ∧ c.enabled = true := by
+  refine ⟨⟨{ readers := 1, wlocked := true },
+    [{ todo := [.runlock], r := 1 }, { todo := [.rlock, .runlock] }, { todo := [.lock, .unlock], ann := true }]⟩,
+    ?_, by decide, rfl, rfl, by decide⟩
+  have s1 : Step (Cfg.init [[.rlock, .runlock], [.rlock, .runlock], [.lock, .unlock]])
+      ⟨{ readers := 1 }, [{ todo := [.runlock], r := 1 }, { todo := [.rlock, .runlock] }, { todo := [.lock, .unlock] }]⟩ :=
+    Step.mk {} { readers := 1 } [] [{ todo := [.rlock, .runlock] }, { todo := [.lock, .unlock] }]
+      { todo := [.rlock, .runlock] } { todo := [.runlock], r := 1 } rfl
+  have s2 : Step ⟨{ readers := 1 }, [{ todo := [.runlock], r := 1 }, { todo := [.rlock, .runlock] }, { todo := [.lock, .unlock] }]⟩
+      ⟨{ readers := 1, wlocked := true },
+       [{ todo := [.runlock], r := 1 }, { todo := [.rlock, .runlock] }, { todo := [.lock, .unlock], ann := true }]⟩ :=
+    Step.mk { readers := 1 } { readers := 1, wlocked := true } [{ todo := [.runlock], r := 1 }, { todo := [.rlock, .runlock] }] []
+      { todo := [.lock, .unlock] } { todo := [.lock, .unlock], ann := true } rfl
+  exact Reach.step (Reach.step Reach.refl s1) s2
+
+end SigModel.RWLock
